@@ -20,7 +20,9 @@ func init() {
 	opts := func(string) simrt.Options { return simrt.Options{MaxSteps: 100000, RotateMaps: true} }
 	runner.Register("C01", runner.Scenario{Name: "executor", Options: opts, Body: func(c *runner.Ctx) { body(c, false) }})
 	runner.Register("C16", runner.Scenario{Name: "executor-faults", Options: opts, Body: func(c *runner.Ctx) { body(c, true) }})
-	park := func(string) simrt.Options { return simrt.Options{MaxSteps: 100000, RotateMaps: true, ParkPermille: 10, MapPausePermille: 200, SpawnPausePermille: 30} }
+	park := func(string) simrt.Options {
+		return simrt.Options{MaxSteps: 100000, RotateMaps: true, ParkPermille: 10, MapPausePermille: 200, SpawnPausePermille: 30}
+	}
 	runner.Register("C01", runner.Scenario{Name: "executor-preempt", Options: park, Body: func(c *runner.Ctx) { body(c, false) }})
 	runner.Register("C16", runner.Scenario{Name: "executor-faults-preempt", Options: park, Body: func(c *runner.Ctx) { body(c, true) }})
 }
@@ -144,6 +146,8 @@ func body(c *runner.Ctx, faults bool) {
 	}
 	c.Describe("world: A=%d B=%d C=%d modes: %s", w.nA, w.nB, w.nC, strings.Join(modeDesc, " "))
 	nExec := 1 + c.Choose(3, "executions")
+	// in a third of the runs every query goes through one Executor
+	useShared := c.Choose(3, "shared-executor") == 1
 	var execs []*execution
 	for i := 0; i < nExec; i++ {
 		g := &gen{c: c, w: w, budget: 14, nb: c.Choose(3, "non-null-field") > 0, argVars: c.Choose(3, "argument-variables") == 1, unionFrags: c.Choose(3, "union-type-fragments") == 1, grid: c.Choose(3, "list-of-lists") == 1, rootTN: true, bareFrags: true}
@@ -160,6 +164,9 @@ func body(c *runner.Ctx, faults bool) {
 		ex.text = g.text(root, ex.opName)
 		ex.vars = g.vars()
 		ex.sched = []string{"immediate", "fifo", "lifo", "seeded", "wave2", "wave3"}[c.Choose(6, "scheduler")]
+		if useShared {
+			ex.sched = "immediate" // the shared executor's scheduler
+		}
 		ex.fallback = c.Choose(2, "use-batch-flag") == 1
 		ex.rerunner = c.Choose(3, "in-rerunner") == 1
 		if ex.rerunner && w.latency && c.Choose(3, "deadline") == 1 {
@@ -201,7 +208,6 @@ func body(c *runner.Ctx, faults bool) {
 	// and a federation server have: overlapping Execute calls on it must not
 	// know of each other
 	shared := graphql.NewExecutor(graphql.NewImmediateGoroutineScheduler())
-	useShared := c.Choose(3, "shared-executor") == 1
 	for _, ex := range execs {
 		ex := ex
 		go func() {
